@@ -126,13 +126,13 @@ def cubes(tier):
     else:
         n, k, L, depth, nadds, price = 3, 4, 4, 4, 2, 3
     out.append({'seq': 'M', 'pre': {'N': n, 'K': k}, 'match_unwind': L, 'pop_unwind': k + L + 1, 'qty_mode': 'full',
-                'price': price, 'family': 'one-match-from-arbitrary-state'})
+                'price': price, 'family': 'one-match-from-arbitrary-state', 'order_price_offsets': [1]})
     for s in sequences(depth, nadds):
         if 'M' not in s:
             continue
         mu = match_unwind_for(s, 5)
         out.append({'seq': s, 'match_unwind': mu, 'pop_unwind': depth + 3, 'qty_mode': 'full', 'price': price,
-                    'family': 'history'})
+                    'family': 'history', 'order_price_offsets': [1]})
     return out
 
 
@@ -183,7 +183,7 @@ def run(tier, seed):
                                 'match_loop_unwind': sorted(set(c['match_unwind'] for c in his))},
                   'add_transaction_appends': 4, 'quantities': 'free 64-bit', 'level_price': cs[0]['price']}
     from .c01 import STD_ASSUMPTIONS
-    run.assumptions = STD_ASSUMPTIONS + ['transaction ids: UUID v5 of (namespace, decimal counter) is injective (uninterpreted function with injectivity axiom)',
+    run.assumptions = [a for a in STD_ASSUMPTIONS if not a.startswith('order price ==')] + ['order prices range over {level price, level price + 1}: the level does not validate the price of the orders it is given','transaction ids: UUID v5 of (namespace, decimal counter) is injective (uninterpreted function with injectivity axiom)',
                                          'lifetime bound is checked in its inductive form: per match and per resting order, fills + remainder <= quantity held before the call; amendments define a new held quantity']
     run_hist(run, prop, cs, timeout=300 if tier == 'quick' else 900)
     # incremental MatchResult
